@@ -1,1 +1,410 @@
+(* C06 proofs: calcline, escape domains, capture nesting threshold. *)
 From C06 Require Import Model.
+Local Open Scope Z_scope.
+Ltac Zify.zify_post_hook ::= Z.div_mod_to_equations.
+
+(* ------------------------------------------------------------------ *)
+(* facts about the regenerated constants *)
+Lemma fact_levels : 1 <= NODE_LEVELS /\ 0 <= LADDER_FOLDS /\ 0 <= SUFFIX_FOLDS /\ 0 <= MAXRECLEVEL.
+Proof. vm_compute. intuition discriminate. Qed.
+Lemma fact_simple_escapes : forallb (fun kv => (0 <=? snd kv) && (snd kv <=? UCHAR_MAX)) SIMPLE_ESCAPES = true.
+Proof. vm_compute. reflexivity. Qed.
+Lemma fact_domains : 0 <= DEC3_LEAD_MAX <= 9 /\ 99 <= UCHAR_MAX /\ 16 * 15 + 15 <= UCHAR_MAX /\ 10 <= UCHAR_MAX /\
+  0 <= MAXUTF < 2 ^ 64.
+Proof. vm_compute. intuition discriminate. Qed.
+
+(* ------------------------------------------------------------------ *)
+(* calcline *)
+
+Lemma len_nonneg : forall A (l : list A), 0 <= len l.
+Proof. intros. unfold len. lia. Qed.
+Lemma len_cons : forall A (a : A) l, len (a :: l) = len l + 1.
+Proof. intros. unfold len. simpl length. lia. Qed.
+Lemma len_app : forall A (a b : list A), len (a ++ b) = len a + len b.
+Proof. intros. unfold len. rewrite app_length. lia. Qed.
+
+Lemma count_nl_nonneg : forall l, 0 <= count_nl l.
+Proof. induction l; simpl; [lia|]. destruct (is_nl a); lia. Qed.
+Lemma count_nl_app : forall a b, count_nl (a ++ b) = count_nl a + count_nl b.
+Proof. induction a; simpl; intros; [lia|]. rewrite IHa. lia. Qed.
+
+Lemma last_nl_range : forall l, 0 <= last_nl l <= len l.
+Proof.
+  induction l as [|c r IH]; simpl last_nl.
+  - unfold len; simpl; lia.
+  - rewrite len_cons. destruct (0 <? last_nl r) eqn:E; [apply Z.ltb_lt in E; lia|].
+    destruct (is_nl c); pose proof (len_nonneg _ r); lia.
+Qed.
+
+(* position last_nl l is the last newline: nothing after it is a newline *)
+Lemma after_last_nl : forall l x, In x (skipn (Z.to_nat (last_nl l)) l) -> is_nl x = false.
+Proof.
+  induction l as [|c r IH]; simpl last_nl; intros x H.
+  - destruct (Z.to_nat 0); simpl in H; contradiction.
+  - pose proof (last_nl_range r) as R. destruct (0 <? last_nl r) eqn:E.
+    + apply Z.ltb_lt in E. replace (Z.to_nat (last_nl r + 1)) with (S (Z.to_nat (last_nl r))) in H by lia.
+      simpl in H. auto.
+    + apply Z.ltb_ge in E. assert (Z0 : last_nl r = 0) by lia. rewrite Z0 in IH. simpl in IH.
+      destruct (is_nl c) eqn:N.
+      * replace (Z.to_nat 1) with 1%nat in H by lia. simpl in H. auto.
+      * simpl in H. destruct H as [H | H]; [subst; assumption | auto].
+Qed.
+
+(* ... and the character at that position is a newline *)
+Lemma at_last_nl : forall l, 0 < last_nl l -> nth (Z.to_nat (last_nl l - 1)) l 0 = NL.
+Proof.
+  induction l as [|c r IH]; simpl last_nl; intros H; [lia|].
+  pose proof (last_nl_range r) as R. destruct (0 <? last_nl r) eqn:E.
+  - apply Z.ltb_lt in E. replace (Z.to_nat (last_nl r + 1 - 1)) with (S (Z.to_nat (last_nl r - 1))) by lia.
+    simpl. auto.
+  - destruct (is_nl c) eqn:N; [|lia]. simpl. unfold is_nl in N. apply Z.eqb_eq in N. assumption.
+Qed.
+
+(* the last newline is the last character exactly when the list ends with a newline *)
+Lemma last_nl_full_iff : forall l, last_nl l = len l <-> (l = [] \/ last l 0 = NL).
+Proof.
+  induction l as [|c r IH]; simpl last_nl.
+  - unfold len; simpl. intuition.
+  - rewrite len_cons. pose proof (last_nl_range r) as R.
+    destruct (0 <? last_nl r) eqn:E.
+    + apply Z.ltb_lt in E. assert (Rn : r <> []) by (intro; subst; simpl in E; lia).
+      split.
+      * intros H. right. assert (H' : last_nl r = len r) by lia. apply IH in H'.
+        destruct H' as [H' | H']; [contradiction|]. destruct r; [contradiction | exact H'].
+      * intros [H | H]; [discriminate|]. assert (last r 0 = NL) by (destruct r; [contradiction | exact H]).
+        assert (last_nl r = len r) by (apply IH; right; assumption). lia.
+    + apply Z.ltb_ge in E. assert (Z0 : last_nl r = 0) by lia.
+      assert (Rnot : r <> [] -> last r 0 <> NL).
+      { intros Rn F. assert (last_nl r = len r) by (apply IH; right; assumption).
+        destruct r; [contradiction|]. rewrite len_cons in H. pose proof (len_nonneg _ r). lia. }
+      destruct (is_nl c) eqn:N.
+      * unfold is_nl in N. apply Z.eqb_eq in N. split.
+        -- intros H. right. assert (len r = 0) by lia. destruct r; [simpl; assumption|].
+           rewrite len_cons in H0. pose proof (len_nonneg _ r). lia.
+        -- intros [H | H]; [discriminate|]. destruct r as [|d r']; [unfold len; simpl; lia|].
+           exfalso. apply Rnot; [discriminate | exact H].
+      * split.
+        -- intros H. pose proof (len_nonneg _ r). lia.
+        -- intros [H | H]; [discriminate|]. exfalso. destruct r as [|d r'].
+           ++ simpl in H. unfold is_nl in N. apply Z.eqb_neq in N. contradiction.
+           ++ apply Rnot; [discriminate | exact H].
+Qed.
+
+Lemma take_line_no_nl : forall l x, In x (take_line l) -> is_nl x = false.
+Proof.
+  induction l as [|c r IH]; simpl; intros x H; [contradiction|].
+  destruct (is_nl c) eqn:N; [contradiction|]. destruct H as [H | H]; [subst; assumption | auto].
+Qed.
+Lemma take_line_split : forall l, l = take_line l ++ skipn (length (take_line l)) l /\
+  (skipn (length (take_line l)) l = [] \/ exists r, skipn (length (take_line l)) l = NL :: r).
+Proof.
+  induction l as [|c r IH]; simpl.
+  - split; [reflexivity | left; reflexivity].
+  - destruct (is_nl c) eqn:N; simpl.
+    + split; [reflexivity|]. right. unfold is_nl in N. apply Z.eqb_eq in N. subst c. eauto.
+    + destruct IH as [A B]. split; [f_equal; exact A | exact B].
+Qed.
+
+Lemma skipn_skipn' : forall A (l : list A) a b, skipn a (skipn b l) = skipn (b + a) l.
+Proof.
+  induction l; intros; [destruct a; destruct b; reflexivity|].
+  destruct b; simpl; [reflexivity|]. apply IHl.
+Qed.
+Lemma firstn_firstn_le : forall A (l : list A) a b, (a <= b)%nat -> firstn a (firstn b l) = firstn a l.
+Proof. intros. rewrite firstn_firstn. f_equal. lia. Qed.
+Lemma count_nl_firstn_le : forall k l, count_nl (firstn k l) <= count_nl l.
+Proof.
+  intros. rewrite <- (firstn_skipn k l) at 2. rewrite count_nl_app. pose proof (count_nl_nonneg (skipn k l)). lia.
+Qed.
+Lemma firstn_len : forall A (l : list A) p, 0 <= p <= len l -> len (firstn (Z.to_nat p) l) = p.
+Proof. intros. unfold len in *. rewrite firstn_length. lia. Qed.
+
+Lemma nth_firstn_lt : forall A (l : list A) i k d, (i < k)%nat -> nth i (firstn k l) d = nth i l d.
+Proof.
+  induction l; intros i k d H; [destruct k; destruct i; reflexivity|].
+  destruct k; [lia|]. destruct i; simpl; [reflexivity|]. apply IHl. lia.
+Qed.
+
+Definition no_nl (l : list Z) : Prop := forall x, In x l -> x <> NL.
+Lemma is_nl_false : forall x, is_nl x = false -> x <> NL.
+Proof. intros x H. unfold is_nl in H. apply Z.eqb_neq in H. assumption. Qed.
+
+Theorem calcline_spec : forall text pos c, calcline text pos = Some c ->
+  let p := Z.min pos (len text) in
+  0 <= pos /\
+  1 <= c_lineno c <= lines text /\
+  c_lineno c = count_nl (firstn (Z.to_nat p) text) + 1 /\
+  0 <= c_colno c <= len (c_line c) /\
+  c_linestart c - 1 + c_colno c = p /\
+  c_lineend c = c_linestart c - 1 + len (c_line c) /\
+  no_nl (c_line c) /\
+  text = firstn (Z.to_nat (c_linestart c - 1)) text ++ c_line c ++ skipn (Z.to_nat (c_lineend c)) text /\
+  (c_linestart c = 1 \/ nth (Z.to_nat (c_linestart c - 2)) text 0 = NL) /\
+  (skipn (Z.to_nat (c_lineend c)) text = [] \/ exists r, skipn (Z.to_nat (c_lineend c)) text = NL :: r).
+Proof.
+  intros text pos c H p. unfold calcline in H.
+  destruct (pos <? 0) eqn:E; [discriminate|]. apply Z.ltb_ge in E.
+  fold p in H. inversion H; subst c; clear H. simpl.
+  pose proof (len_nonneg _ text) as Ln.
+  assert (Pr : 0 <= p <= len text) by (unfold p; lia).
+  set (prefix := firstn (Z.to_nat p) text) in *.
+  set (rest := skipn (Z.to_nat p) text) in *.
+  assert (Lp : len prefix = p) by (apply firstn_len; assumption).
+  pose proof (last_nl_range prefix) as LR. rewrite Lp in LR.
+  destruct (take_line_split rest) as [TS TE].
+  set (tail := take_line rest) in *.
+  assert (Lsk : len (skipn (Z.to_nat (last_nl prefix)) prefix) = p - last_nl prefix).
+  { unfold len. rewrite skipn_length. unfold len in Lp. lia. }
+  split; [assumption|]. split.
+  { unfold lines. pose proof (count_nl_nonneg prefix). pose proof (count_nl_firstn_le (Z.to_nat p) text). fold prefix in H0. lia. }
+  split; [reflexivity|]. split.
+  { rewrite len_app, Lsk. pose proof (len_nonneg _ tail). lia. }
+  split; [lia|]. split.
+  { rewrite len_app, Lsk. lia. }
+  split.
+  { intros x Hx. apply in_app_or in Hx. apply is_nl_false. destruct Hx as [Hx | Hx].
+    - eapply after_last_nl; eassumption.
+    - eapply take_line_no_nl; eassumption. }
+  split.
+  { replace (last_nl prefix + 1 - 1) with (last_nl prefix) by lia.
+    rewrite <- (firstn_skipn (Z.to_nat p) text) at 1. fold prefix rest.
+    rewrite <- (firstn_skipn (Z.to_nat (last_nl prefix)) prefix) at 1.
+    assert (FF : firstn (Z.to_nat (last_nl prefix)) prefix = firstn (Z.to_nat (last_nl prefix)) text).
+    { subst prefix. apply firstn_firstn_le. lia. }
+    rewrite FF. rewrite <- !app_assoc. f_equal. f_equal.
+    rewrite TS at 1. f_equal. unfold rest. rewrite skipn_skipn'. f_equal.
+    unfold len. lia. }
+  split.
+  { destruct (Z.eq_dec (last_nl prefix) 0) as [Z0 | Z0]; [left; lia | right].
+    replace (last_nl prefix + 1 - 2) with (last_nl prefix - 1) by lia.
+    pose proof (at_last_nl prefix ltac:(lia)) as A.
+    rewrite <- A. symmetry. subst prefix. apply nth_firstn_lt. lia. }
+  { replace (Z.to_nat (p + len tail)) with (Z.to_nat p + length tail)%nat by (unfold len; lia).
+    rewrite <- skipn_skipn'. fold rest. exact TE. }
+Qed.
+
+(* column >= 1 exactly when the (clamped) position is not on a newline *)
+Theorem calcline_col0_iff : forall text pos c, calcline text pos = Some c ->
+  let p := Z.min pos (len text) in
+  (c_colno c = 0 <-> (p = 0 \/ last (firstn (Z.to_nat p) text) 0 = NL)).
+Proof.
+  intros text pos c H p. unfold calcline in H.
+  destruct (pos <? 0) eqn:E; [discriminate|]. apply Z.ltb_ge in E.
+  fold p in H. inversion H; subst c; clear H. simpl.
+  pose proof (len_nonneg _ text) as Ln.
+  assert (Pr : 0 <= p <= len text) by (unfold p; lia).
+  set (prefix := firstn (Z.to_nat p) text) in *.
+  assert (Lp : len prefix = p) by (apply firstn_len; assumption).
+  pose proof (last_nl_full_iff prefix) as F. rewrite Lp in F.
+  split.
+  - intros H. assert (H' : last_nl prefix = p) by lia. apply F in H'. destruct H' as [H' | H']; [|right; assumption].
+    left. rewrite H' in Lp. unfold len in Lp. simpl in Lp. lia.
+  - intros [H | H].
+    + assert (prefix = []) by (unfold prefix; rewrite H; reflexivity).
+      assert (last_nl prefix = p) by (apply F; left; assumption). lia.
+    + assert (last_nl prefix = p) by (apply F; right; assumption). lia.
+Qed.
+
+(* full-strength column statement and its refutation on the code as it is *)
+Definition calcline_col_full : Prop := forall text pos c, 1 <= pos <= len text + 1 ->
+  calcline text pos = Some c -> 1 <= c_colno c <= len (c_line c) + 1.
+Lemma calcline_col_refuted : ~ calcline_col_full.
+Proof.
+  intro F. specialize (F [97; 10; 98] 2 (mk_calc 2 0 [98] 3 3)).
+  assert (1 <= 0 <= len [98] + 1); [|lia]. apply F; [vm_compute; split; discriminate | vm_compute; reflexivity].
+Qed.
+Lemma calcline_col_partial : forall text pos c, calcline text pos = Some c ->
+  let p := Z.min pos (len text) in
+  1 <= p -> last (firstn (Z.to_nat p) text) 0 <> NL -> 1 <= c_colno c <= len (c_line c).
+Proof.
+  intros text pos c H p P1 Hl. pose proof (calcline_spec text pos c H) as S.
+  pose proof (calcline_col0_iff text pos c H) as Z0. fold p in S, Z0.
+  destruct S as (_ & _ & _ & C & _). assert (c_colno c <> 0); [|lia].
+  intro F. apply Z0 in F. destruct F; [lia | contradiction].
+Qed.
+
+(* ------------------------------------------------------------------ *)
+(* escapes *)
+
+Lemma is_dec_range : forall c, is_dec c = true -> 48 <= c <= 57.
+Proof. intros c H. unfold is_dec in H. apply andb_prop in H. destruct H as [A B]. apply Z.leb_le in A, B. lia. Qed.
+Lemma hexv_range : forall c, is_hex c = true -> 0 <= hexv c <= 15.
+Proof.
+  intros c H. unfold is_hex, hexv in *. destruct (is_dec c) eqn:D.
+  - apply is_dec_range in D. lia.
+  - simpl in H. apply orb_prop in H. destruct H as [H | H]; apply andb_prop in H; destruct H as [A B];
+      apply Z.leb_le in A, B.
+    + destruct (97 <=? c) eqn:Q; [lia | apply Z.leb_gt in Q; lia].
+    + destruct (97 <=? c) eqn:Q; [apply Z.leb_le in Q; lia | lia].
+Qed.
+
+Lemma hexval_range_aux : forall l n, 0 <= n < 2 ^ 64 -> 0 <= fold_left (fun n c => (n * 16 + hexv c) mod 2 ^ 64) l n < 2 ^ 64.
+Proof.
+  induction l; simpl; intros; [assumption|]. apply IHl. apply Z.mod_pos_bound. reflexivity.
+Qed.
+Lemma hexval_range : forall l, 0 <= hexval l < 2 ^ 64.
+Proof. intros. unfold hexval. apply hexval_range_aux. split; [lia | reflexivity]. Qed.
+
+Lemma assoc_simple_range : forall c v, assoc c SIMPLE_ESCAPES = Some v -> 0 <= v <= UCHAR_MAX.
+Proof.
+  intros c v H. pose proof fact_simple_escapes as F. rewrite forallb_forall in F.
+  assert (G : forall l, assoc c l = Some v -> exists k, In (k, v) l).
+  { induction l as [|[k w] r IH]; simpl; intros A; [discriminate|].
+    destruct (k =? c); [inversion A; subst; eauto | destruct (IH A) as [k' I]; eauto]. }
+  destruct (G _ H) as [k I]. specialize (F _ I). simpl in F. apply andb_prop in F. destruct F as [A B].
+  apply Z.leb_le in A, B. lia.
+Qed.
+
+Definition escape_total : Prop := forall l, esc_defined (decode_escape l).
+Lemma escape_total_refuted_dec : ~ escape_total.
+Proof. intro F. specialize (F [50; 53; 54; 34]). vm_compute in F. destruct F as [_ F]. apply F. reflexivity. Qed.
+Lemma escape_total_refuted_u : ~ escape_total.
+Proof.
+  intro F. specialize (F [117; 123; 56; 48; 48; 48; 48; 48; 48; 48; 125; 34]). vm_compute in F.
+  destruct F as [_ F]. apply F. reflexivity.
+Qed.
+
+(* a 3-digit decimal escape: the only way tochar can be called outside its domain *)
+Definition dec3 (l : list Z) (v : Z) (r : list Z) : Prop :=
+  exists d1 d2 d3, l = d1 :: d2 :: d3 :: r /\ is_dec d1 = true /\ is_dec d2 = true /\ is_dec d3 = true /\
+    d1 - 48 <= DEC3_LEAD_MAX /\ v = 100 * (d1 - 48) + 10 * (d2 - 48) + (d3 - 48).
+
+Local Opaque Z.mul Z.add Z.sub.
+Theorem escape_char_domain : forall l v r, decode_escape l = EChar v r ->
+  0 <= v <= Z.max UCHAR_MAX (100 * DEC3_LEAD_MAX + 99) /\ (UCHAR_MAX < v -> dec3 l v r).
+Proof.
+  intros l v r H. pose proof fact_domains as (D1 & D2 & D3 & D4 & D5).
+  unfold decode_escape in H. destruct l as [|c t]; [discriminate|].
+  destruct ((c =? 92) || (c =? 39) || (c =? 34)); [discriminate|].
+  destruct (assoc c SIMPLE_ESCAPES) as [w|] eqn:A.
+  { inversion H; subst. apply assoc_simple_range in A. split; [lia | intros; lia]. }
+  destruct (c =? 120).
+  { destruct t as [|h1 [|h2 t']]; try discriminate.
+    destruct (is_hex h1) eqn:X1; [|discriminate]. destruct (is_hex h2) eqn:X2; [|discriminate].
+    cbn [andb] in H. inversion H; subst. apply hexv_range in X1. apply hexv_range in X2. split; [lia | intros; lia]. }
+  destruct (c =? 117).
+  { destruct t as [|b t']; [discriminate|]. destruct (b =? 123) eqn:B; [|destruct b; try discriminate; destruct p; try discriminate; repeat (destruct p; try discriminate)].
+    apply Z.eqb_eq in B. subst b. destruct (span_hex t') as [[|d ds] [|q qs]]; try discriminate.
+    destruct q; try discriminate. repeat (destruct p; try discriminate). }
+  destruct (c =? 122); [discriminate|].
+  destruct (is_dec c) eqn:Dc.
+  { apply is_dec_range in Dc.
+    destruct t as [|d2 t2].
+    { inversion H; subst. split; [lia | intros; lia]. }
+    destruct (is_dec d2) eqn:D2c.
+    2: { inversion H; subst. split; [lia | intros; lia]. }
+    pose proof (is_dec_range _ D2c) as R2.
+    destruct t2 as [|d3 t3].
+    { inversion H; subst. split; [lia | intros; lia]. }
+    destruct (is_dec d3) eqn:D3c.
+    2: { inversion H; subst. split; [lia | intros; lia]. }
+    pose proof (is_dec_range _ D3c) as R3.
+    destruct (c - 48 <=? DEC3_LEAD_MAX) eqn:Q; [|discriminate]. apply Z.leb_le in Q.
+    inversion H; subst. split; [lia|]. intros _. exists c, d2, d3. repeat split; try assumption.
+    unfold is_dec. apply andb_true_intro. split; apply Z.leb_le; lia. }
+  destruct (c =? 10).
+  { destruct t as [|b t']; [inversion H; subst; split; [lia | intros; lia]|].
+    destruct (b =? 13) eqn:B.
+    - apply Z.eqb_eq in B. subst b. inversion H; subst. split; [lia | intros; lia].
+    - assert (E : match b with 13 => EChar 10 t' | _ => EChar 10 (b :: t') end = EChar 10 (b :: t')).
+      { apply Z.eqb_neq in B. destruct b; try reflexivity. repeat (destruct p; try reflexivity). contradiction. }
+      rewrite E in H. inversion H; subst. split; [lia | intros; lia]. }
+  destruct (c =? 13); [|discriminate].
+  destruct t as [|b t']; [inversion H; subst; split; [lia | intros; lia]|].
+  destruct (b =? 10) eqn:B.
+  - apply Z.eqb_eq in B. subst b. inversion H; subst. split; [lia | intros; lia].
+  - assert (E : match b with 10 => EChar 10 t' | _ => EChar 10 (b :: t') end = EChar 10 (b :: t')).
+    { apply Z.eqb_neq in B. destruct b; try reflexivity. repeat (destruct p; try reflexivity). contradiction. }
+    rewrite E in H. inversion H; subst. split; [lia | intros; lia].
+Qed.
+
+Local Transparent Z.mul Z.add Z.sub.
+(* utf8.char is called with tonumber's wrapped value: defined exactly when that is <= MAXUTF *)
+Lemma span_hex_app : forall l a b, span_hex l = (a, b) -> l = a ++ b /\ forallb is_hex a = true.
+Proof.
+  induction l as [|c r IH]; simpl; intros a b H.
+  - inversion H; subst. split; reflexivity.
+  - destruct (is_hex c) eqn:X.
+    + destruct (span_hex r) as [a' b'] eqn:S. inversion H; subst. destruct (IH a' b eq_refl) as [E F].
+      split; [simpl; f_equal; exact E | simpl; rewrite X; exact F].
+    + inversion H; subst. split; reflexivity.
+Qed.
+
+Theorem escape_utf8_domain : forall l v r, decode_escape l = EUtf8 v r ->
+  0 <= v < 2 ^ 64 /\
+  exists digs, digs <> [] /\ forallb is_hex digs = true /\ v = hexval digs /\ l = 117 :: 123 :: digs ++ 125 :: r.
+Proof.
+  intros l v r H. unfold decode_escape in H. destruct l as [|c t]; [discriminate|].
+  destruct ((c =? 92) || (c =? 39) || (c =? 34)); [discriminate|].
+  destruct (assoc c SIMPLE_ESCAPES); [discriminate|].
+  destruct (c =? 120).
+  { destruct t as [|h1 [|h2 t']]; try discriminate. destruct (is_hex h1 && is_hex h2); discriminate. }
+  destruct (c =? 117) eqn:C.
+  { apply Z.eqb_eq in C. subst c. destruct t as [|b t']; [discriminate|].
+    destruct (b =? 123) eqn:B.
+    2: { exfalso. apply Z.eqb_neq in B. destruct b; try discriminate. repeat (destruct p; try discriminate). contradiction. }
+    apply Z.eqb_eq in B. subst b. destruct (span_hex t') as [digs rest] eqn:S.
+    destruct (span_hex_app _ _ _ S) as [E F].
+    destruct digs as [|d ds]; [discriminate|]. destruct rest as [|q qs]; [discriminate|].
+    destruct (q =? 125) eqn:Q.
+    2: { exfalso. apply Z.eqb_neq in Q. destruct q; try discriminate. repeat (destruct p; try discriminate). contradiction. }
+    apply Z.eqb_eq in Q. subst q. inversion H; subst. split; [apply hexval_range|].
+    exists (d :: ds). split; [discriminate|]. split; [exact F|]. split; [reflexivity|]. reflexivity. }
+  destruct (c =? 122); [discriminate|].
+  destruct (is_dec c).
+  { destruct t as [|d2 t2]; [discriminate|]. destruct (is_dec d2); [|discriminate].
+    destruct t2 as [|d3 t3]; [discriminate|]. destruct (is_dec d3); [|discriminate].
+    destruct (c - 48 <=? DEC3_LEAD_MAX); discriminate. }
+  destruct (c =? 10).
+  { destruct t as [|b t']; [discriminate|]. destruct b; try discriminate. repeat (destruct p; try discriminate). }
+  destruct (c =? 13); [|discriminate].
+  destruct t as [|b t']; [discriminate|]. destruct b; try discriminate. repeat (destruct p; try discriminate).
+Qed.
+
+(* the callback domains hold exactly outside the two characterised families *)
+Corollary escape_undefined_iff : forall l, ~ esc_defined (decode_escape l) <->
+  (exists v r, decode_escape l = EChar v r /\ UCHAR_MAX < v /\ dec3 l v r) \/
+  (exists v r, decode_escape l = EUtf8 v r /\ MAXUTF < v).
+Proof.
+  intros l. split.
+  - intros N. destruct (decode_escape l) as [c r | v r | v r | r |] eqn:D; simpl in N; try (exfalso; apply N; exact I).
+    + left. destruct (escape_char_domain l v r D) as [R U]. exists v, r. split; [reflexivity|].
+      assert (UCHAR_MAX < v) by lia. auto.
+    + right. destruct (escape_utf8_domain l v r D) as [R _]. exists v, r. split; [reflexivity | lia].
+  - intros [(v & r & D & U & _) | (v & r & D & U)]; rewrite D; simpl; lia.
+Qed.
+
+
+(* ------------------------------------------------------------------ *)
+(* capture nesting *)
+
+Lemma level_cost_pos : forall f, 0 < level_cost f.
+Proof. intros f. pose proof fact_levels as (A & B & C & D). destruct f; unfold level_cost; lia. Qed.
+
+Lemma cdiv_le_iff : forall a k n, 0 < k -> (cdiv a k <= n <-> a <= n * k).
+Proof.
+  intros a k n Hk. unfold cdiv.
+  pose proof (Z.div_mod (a + k - 1) k ltac:(lia)) as D. pose proof (Z.mod_pos_bound (a + k - 1) k Hk) as B.
+  set (q := (a + k - 1) / k) in *. set (r := (a + k - 1) mod k) in *. clearbody q r.
+  split; intros H; nia.
+Qed.
+
+Theorem nesting_threshold : forall f ctx n, 0 <= n ->
+  (too_deep (depth f ctx n) = true <-> threshold f ctx <= n).
+Proof.
+  intros f ctx n Hn. unfold too_deep, depth, threshold. pose proof (level_cost_pos f) as K.
+  rewrite Z.leb_le. set (a := MAXRECLEVEL + 2 - ctx - inner_cost).
+  pose proof (cdiv_le_iff a (level_cost f) n K) as C.
+  split; intros H.
+  - apply Z.max_lub; [lia|]. apply C. unfold a. lia.
+  - assert (cdiv a (level_cost f) <= n) by lia. apply C in H0. unfold a in H0. lia.
+Qed.
+
+(* non-vacuity *)
+Example ex_calcline : calcline [108; 111; 10; 97; 32; 61; 10] 6 = Some (mk_calc 2 3 [97; 32; 61] 4 6).
+Proof. vm_compute. reflexivity. Qed.
+Example ex_escape : decode_escape [120; 52; 49; 34] = EChar 65 [34] /\ decode_escape [50; 53; 53; 34] = EChar 255 [34].
+Proof. vm_compute. auto. Qed.
+Example ex_threshold : too_deep (depth FParens (ctx_local 0) (threshold FParens (ctx_local 0))) = true /\
+  too_deep (depth FParens (ctx_local 0) (threshold FParens (ctx_local 0) - 1)) = false /\ 1 <= threshold FParens (ctx_local 0).
+Proof. vm_compute. intuition discriminate. Qed.
